@@ -92,7 +92,7 @@ def norm(s):
 
 def analyse(repo):
     r = dict(ok=False, detail="", atomic=False, stop_atomic=False, global_atomic=False, polls_solve=0, polls_search=0,
-             polls_elim=0, polls_lookahead=0, anchors={}, notes=[])
+             polls_elim=0, polls_lookahead=0, poll_after_conflict=True, anchors={}, notes=[])
 
     def rd(rel):
         return strip_comments(open(os.path.join(repo, rel)).read())
@@ -156,13 +156,20 @@ def analyse(repo):
         return fail("CoreSMTSolver::search not found")
     r["polls_search"], r["anchors"]["search"] = polls(b), "CoreSMTSolver.cc:%d" % ln
     nb = norm(strip_asserts(b))
-    if "while(okContinue()){" not in nb or "if(notokContinue()){break;}" not in nb:
-        return fail("search loop is not `while (okContinue()) { ... if (not okContinue()) { break; } ...`")
+    # the poll after propagate(): unconditional (today) or only when propagate() found no conflict
+    brk_plain = "if(notokContinue()){break;}"
+    brk_guarded = [g for g in ("if(confl==CRef_UndefandnotokContinue()){break;}", "if(notokContinue()andconfl==CRef_Undef){break;}") if g in nb]
+    if "while(okContinue()){" not in nb or (brk_plain not in nb and not brk_guarded):
+        return fail("search loop is not `while (okContinue()) { ... if ([confl == CRef_Undef and] not okContinue()) { break; } ...`")
     if not nb.endswith("cancelUntil(0);notifyEnd();returnl_Undef;"):
         return fail("search no longer ends with cancelUntil(0); notifyEnd(); return l_Undef;")
-    i_prop, i_brk = nb.index("propagate()"), nb.index("if(notokContinue()){break;}")
-    if not nb.index("while(okContinue()){") < i_prop < i_brk:
-        return fail("the second poll of search is not right after propagate()")
+    brk = brk_plain if brk_plain in nb else brk_guarded[0]
+    i_prop, i_brk = nb.index("CRefconfl=propagate();"), nb.index(brk)
+    if not nb.index("while(okContinue()){") < i_prop < i_brk or nb[i_prop:i_brk] != "CRefconfl=propagate();runPeriodic();":
+        return fail("the second poll of search is not right after `CRef confl = propagate(); runPeriodic();`")
+    if "if(conflnot=CRef_Undef){" not in nb[i_brk:]:   # norm() spells != as not=
+        return fail("search no longer handles the conflict right after the second poll")
+    r["poll_after_conflict"] = brk == brk_plain
     b, ln = body_of(ss, r"\bbool\s+SimpSMTSolver\s*::\s*eliminate\s*\([^)]*\)\s*\{")
     if b is None:
         return fail("SimpSMTSolver::eliminate not found")
@@ -198,8 +205,9 @@ def analyse(repo):
         return fail("MainSolver::solve lost clearSearch() or the isOK() entry check")
 
     r["ok"] = True
-    r["detail"] = "stopFlag: %s, globalStopFlag: %s; polls: solve_=%d search=%d eliminate=%d lookahead solve_=%d" % (
-        k1, k2, r["polls_solve"], r["polls_search"], r["polls_elim"], r["polls_lookahead"])
+    r["detail"] = "stopFlag: %s, globalStopFlag: %s; polls: solve_=%d search=%d eliminate=%d lookahead solve_=%d; poll after propagate() %s" % (
+        k1, k2, r["polls_solve"], r["polls_search"], r["polls_elim"], r["polls_lookahead"],
+        "even with a conflict pending" if r["poll_after_conflict"] else "only without a pending conflict")
     return r
 
 
@@ -219,8 +227,11 @@ Definition polls_search : nat := %d.
 Definition polls_eliminate : nat := %d.
 Definition polls_lookahead_solve : nat := %d.
 Definition lookahead_polls : bool := %s.
+(* search(): is `if (not okContinue()) break;` after propagate() executed even when propagate() returned a
+   conflict (true), or is the conflict handled first (false)? *)
+Definition poll_after_conflict : bool := %s.
 """ % (r["detail"], ", ".join("%s=%s" % kv for kv in sorted(r["anchors"].items())), b(r["stop_atomic"]), b(r["global_atomic"]),
-       b(r["atomic"]), r["polls_solve"], r["polls_search"], r["polls_elim"], r["polls_lookahead"], b(r["polls_lookahead"] > 0))
+       b(r["atomic"]), r["polls_solve"], r["polls_search"], r["polls_elim"], r["polls_lookahead"], b(r["polls_lookahead"] > 0), b(r["poll_after_conflict"]))
 
 
 def regenerate(repo, out=OUT):
